@@ -9,6 +9,7 @@ import (
 	"github.com/textwire/textwire/v2/ctx"
 	"github.com/textwire/textwire/v2/fail"
 	"github.com/textwire/textwire/v2/object"
+	"github.com/textwire/textwire/v2/utils"
 )
 
 var (
@@ -259,8 +260,8 @@ func (e *Evaluator) evalComponentStmt(node *ast.ComponentStmt, env *object.Env) 
 	newEnv := object.NewEnclosedEnv(env)
 
 	if node.Argument != nil {
-		for key, arg := range node.Argument.Pairs {
-			val := e.Eval(arg, env)
+		for _, key := range utils.SortedKeys(node.Argument.Pairs) {
+			val := e.Eval(node.Argument.Pairs[key], env)
 
 			if isError(val) {
 				return val
@@ -632,8 +633,8 @@ func (e *Evaluator) evalArrayLiteral(
 func (e *Evaluator) evalObjectLiteral(node *ast.ObjectLiteral, env *object.Env) object.Object {
 	pairs := make(map[string]object.Object)
 
-	for key, value := range node.Pairs {
-		valueObj := e.Eval(value, env)
+	for _, key := range utils.SortedKeys(node.Pairs) {
+		valueObj := e.Eval(node.Pairs[key], env)
 
 		if isError(valueObj) {
 			return valueObj
